@@ -14,7 +14,7 @@ CONTRACT_PROPS = ["C08"]
 RULE = "scenario x engine; non-trivial = a timer was armed"
 BOUND = "delay 40 ms, observation window 5 x delay, 9 scenarios x 2 engines x 2 repetitions"
 D = 0.04
-SCEN = ["stay", "leave", "reenter", "two", "named", "computed", "stop", "guard", "stale"]
+SCEN = ["stay", "leave", "reenter", "two", "named", "computed", "stop", "guard", "stale", "poll"]
 
 
 def cases(tier, seed):
@@ -50,6 +50,8 @@ def _machine(scen, log):
         after = {"CALC": {"target": "#m.t", "actions": ["fired"]}}
     if scen == "guard":
         after = {str(ms): [{"target": "#m.t", "actions": ["fired"], "guard": "no"}]}
+    if scen == "poll":      # polling idiom: the delayed transition re-enters its own state
+        after = {str(ms): {"target": "#m.a", "reenter": True, "actions": ["fired"]}}
     cfg = {"id": "m", "initial": "a", "context": {"d": ms}, "states": {
         "a": {"entry": ["entered"], "after": after, "on": {"X": "#m.b"}},
         "b": {"on": {"Y": "#m.a"}}, "t": {}, "t2": {}}}
@@ -72,7 +74,10 @@ def _script(scen):
     """list of (time offset in units of D, op)"""
     return {"stay": [], "two": [], "named": [], "computed": [], "guard": [],
             "leave": [(0.4, "X")], "reenter": [(0.5, "X"), (0.55, "Y")],
-            "stop": [(0.4, "STOP")], "stale": [(0.3, "X"), (0.35, "Y"), (0.4, "STALE")]}[scen]
+            "stop": [(0.4, "STOP")], "stale": [(0.3, "X"), (0.35, "Y"), (0.4, "STALE")],
+            # one tick while idle (the timer thread itself re-enters the state), then leave and come back before the
+            # next deadline: the delay must restart from the re-entry
+            "poll": [(1.5, "X"), (1.6, "Y")]}[scen]
 
 
 def run_case(case):
@@ -95,7 +100,7 @@ def run_case(case):
             else:
                 it.send(op)
         time.sleep(max(0, t0 + 5 * D - time.monotonic()))
-        want = {"stay": 1, "named": 1, "computed": 1, "reenter": 1, "two": 2}.get(scen, 0)
+        want = {"stay": 1, "named": 1, "computed": 1, "reenter": 1, "two": 2, "poll": 3}.get(scen, 0)
         deadline = time.monotonic() + 3.0       # a loaded machine may fire late: wait for expected firings
         while sum(1 for k, _ in log if k.startswith("fired")) < want and time.monotonic() < deadline:
             time.sleep(0.01)
@@ -117,7 +122,7 @@ def run_case(case):
             else:
                 await it.send(op)
         await asyncio.sleep(max(0, t0 + 5 * D - time.monotonic()))
-        want = {"stay": 1, "named": 1, "computed": 1, "reenter": 1, "two": 2}.get(scen, 0)
+        want = {"stay": 1, "named": 1, "computed": 1, "reenter": 1, "two": 2, "poll": 3}.get(scen, 0)
         deadline = time.monotonic() + 3.0
         while sum(1 for k, _ in log if k.startswith("fired")) < want and time.monotonic() < deadline:
             await asyncio.sleep(0.01)
@@ -158,6 +163,16 @@ def post_check(case, res):
             bad("fired-count", f"{len(fires)} (expected 1 after re-entry)")
         elif len(enters) >= 2 and fires[0] - enters[1] < D - eps:
             bad("re-entry-did-not-restart-the-delay", f"{fires[0] - enters[1]:.4f}s after re-entry")
+    if scen == "poll":
+        # every firing happens at least D after the most recent entry of the state that precedes it
+        evs = sorted([(t, k) for k, t in log if k in ("enter", "fired")])
+        last_enter = None
+        for t, k in evs:
+            if k == "enter":
+                last_enter = t
+            elif last_enter is not None and t - last_enter < D - eps:
+                bad("fired-before-the-delay-of-the-current-activation", f"{t - last_enter:.4f}s after the latest entry (delay {D})")
+                break
     if scen == "stale":
         st = [t for k, t in log if k == "stale-sent"]
         if fires and len(enters) >= 2 and fires[0] - enters[1] < D - eps:
